@@ -24,7 +24,6 @@ SITES = [
     ('staticProcLastUnwrap', 'app/controller/static_resource/mod.rs', 'process_static_resources', r'chars\(\)\.last\(\)\.unwrap\(\)', 0),
     ('staticProcessUrlUnwrap', 'app/controller/static_resource/mod.rs', 'process', r'boxed_url_components\.unwrap\(\)', 0),
     ('rangeListUrlUnwrap', 'range/mod.rs', 'get_content_range_list', r'boxed_url_components\.unwrap\(\)', 0),
-    ('rangeListResolveUnwrap', 'range/mod.rs', 'get_content_range_list', r'resolve_symlink_path\([^)]*\)\.unwrap\(\)', 0),
     ('formGetQueryUnwrap', 'app/controller/form/get_method/mod.rs', 'process', r'boxed_query_option\.unwrap\(\)', 0),
     ('formGetQueryUnwrapLegacy', 'app/controller/form/get_method/mod.rs', 'process_request', r'boxed_query_option\.unwrap\(\)', 0),
     ('fileInitQueryUnwrap', 'app/controller/file/initiate/mod.rs', 'process', r'boxed_query_option\.unwrap\(\)', 0),
